@@ -369,6 +369,36 @@ Proof. reflexivity. Qed.
 Lemma to_scalar_total_refuted : exists jv t w, to_scalar_gen true jv t = Panic w.
 Proof. exists (fun _ => true), TVnil, panic_nil_deref. reflexivity. Qed.
 
+(** * the statements for the code as it is (both defects fixed: the switches
+      ValueModel.defect_C19_1 / defect_C19_2 are [false]) *)
+
+Lemma equal_total a b : exists r, equal a b = Ok r.
+Proof. apply equal_gen_total. now left. Qed.
+
+Lemma equal_sym a b : equal a b = equal b a.
+Proof. apply equal_gen_sym. now left. Qed.
+
+Lemma equal_sound a b : equal a b = Ok true -> tv_equiv a b.
+Proof. apply equal_gen_sound. Qed.
+
+Lemma equal_outside_nil_class d a b :
+  has_nil a = false -> has_nil b = false ->
+  (exists r, equal_gen d a b = Ok r) /\ equal_gen d a b = equal_gen d b a.
+Proof.
+  intros Ha Hb. split; [apply equal_gen_total|apply equal_gen_sym]; right; auto.
+Qed.
+
+Lemma scalar_roundtrip jv x t : from_scalar x = Ok t -> to_scalar jv t = Ok (widen x).
+Proof. apply scalar_roundtrip_gen. Qed.
+
+Lemma to_scalar_total jv t w : to_scalar jv t <> Panic w.
+Proof. apply to_scalar_fixed_total. Qed.
+
+Example equal_total_example : equal (TVDouble 4607182418800017408) TVnil = Ok false.
+Proof. reflexivity. Qed.
+Example to_scalar_total_example : to_scalar (fun _ => true) (TVLeaflist [TVInt 1; TVnil]) = Err err_non_scalar.
+Proof. reflexivity. Qed.
+
 (** * widen32 is exact: the float64 denotes the same number *)
 
 (** the rational denoted by a finite bit pattern, as (sign, mantissa, binary
